@@ -39,8 +39,8 @@ PROGRAM_THEOREMS = {
 
 
 _NF = ["Bb.Nf.nf_sound", "Bb.Nf.bodiesEquiv_sound"]
-_TVG = ["Bb.TV.getter_validated", "Bb.TV.getter_validated_plain"]
-_TVS = ["Bb.TV.setter_validated"]
+_TVG = ["Bb.TV.getter_validated", "Bb.TV.getter_validated_plain", "Bb.TV.accepted_getter_validated"]
+_TVS = ["Bb.TV.setter_validated", "Bb.TV.accepted_setter_validated"]
 _TVO = ["Bb.TV.getter_validated_oob", "Bb.TV.setter_validated_oob"]
 TV_THEOREMS = {
     "C01": _NF + _TVG, "C02": _NF + _TVS, "C03": _NF + _TVG + _TVS + _TVO, "C04": _NF + _TVG + _TVS, "C05": _NF + _TVG + _TVS,
